@@ -15,7 +15,6 @@
 package backend
 
 import (
-	"bytes"
 	"context"
 	"fmt"
 	"time"
@@ -67,7 +66,7 @@ func (b *backend) create(ctx context.Context, key []byte, value []byte) (revisio
 		return 0, err
 	}
 
-	if bytes.Contains(key, events) {
+	if isEventKey(b.config.Prefix, key) {
 		err = b.creator.CreateWithTTL(ctx, key, value, revision, eventsTTL)
 	} else {
 		err = b.creator.Create(ctx, key, value, revision)
